@@ -484,6 +484,15 @@ func nodes(g value.Value, out *[]value.Value) {
 func changeNode(n value.Value, k int) string {
 	switch x := n.(type) {
 	case *value.MapValue:
+		if k%3 == 2 && x.Size() > 0 {
+			// another value under a key that is there: the number of entries stays what it was
+			var keys []string
+			for en := x.Keys(); en.HasMoreElements(); {
+				keys = append(keys, en.NextString())
+			}
+			x.Put(keys[k%len(keys)], value.NewTextValue(fmt.Sprintf("replaced%d", k)))
+			return "map.Put-existing-key"
+		}
 		if k%2 == 0 {
 			x.NewList(fmt.Sprintf("added%d", k)).AddLong(int64(k))
 			return "map.NewList"
@@ -491,6 +500,14 @@ func changeNode(n value.Value, k int) string {
 		x.Put(fmt.Sprintf("added%d", k), value.NewDecimalValue(int64(k)))
 		return "map.Put"
 	case *value.IntMapValue:
+		if k%3 == 2 && x.Size() > 0 {
+			var keys []int32
+			for en := x.Keys(); en.HasMoreElements(); {
+				keys = append(keys, en.NextInt())
+			}
+			x.Put(keys[k%len(keys)], value.NewDecimalValue(int64(k)))
+			return "intmap.Put-existing-key"
+		}
 		x.Put(int32(700000+k), value.NewTextValue("added"))
 		return "intmap.Put"
 	case *value.ListValue:
